@@ -33,7 +33,7 @@ COMPONENTS = {'k/execution_proof_generation.py, k/kore_convertion/language_seman
               'K rewrite chain': 'model R5', 'rust/src/lib.rs': 'real (harness)', 'documented machine': 'model R1'}
 ASSUMPTIONS = ['the Kore-conversion clause is checked against my reading of pyk\'s field order (the real pyk.kore is absent from the image)']
 PROBES = ['trace_len_ge3', 'mismatching_step_refused', 'rule_with_variables', 'cell_symbol', 'parametric_inj', 'kseq_used', 'import_depth_ge2', 'kore_path', 'api_path',
-          'serialised_and_accepted', 'fault_fired', 'claims_ge2']
+          'serialised_and_accepted', 'fault_fired', 'claims_ge2', 'nonfunctional_substitution_refused']
 
 STUBS = os.path.join(VERIF, 'sim', 'stubs')
 
@@ -89,8 +89,8 @@ def generate(rng, tier):
     inj = rng.random() < 0.4
     kseq = rng.random() < 0.3
     symbols = []
-    for c in consts: symbols.append({'name': c, 'arity': 0, 'sort': rng.choice(sorts), 'cell': False, 'params': 0})
-    for f, ar in funs.items(): symbols.append({'name': f, 'arity': ar, 'sort': rng.choice(sorts), 'cell': False, 'params': 0})
+    for c in consts: symbols.append({'name': c, 'arity': 0, 'sort': rng.choice(sorts), 'cell': False, 'params': 0, 'functional': rng.random() >= 0.12})
+    for f, ar in funs.items(): symbols.append({'name': f, 'arity': ar, 'sort': rng.choice(sorts), 'cell': False, 'params': 0, 'functional': rng.random() >= 0.2})
     if cell: symbols.append({'name': 'kcell', 'arity': 1, 'sort': sorts[0], 'cell': True, 'params': 0})
     if inj: symbols.append({'name': 'inj', 'arity': 1, 'sort': None, 'cell': False, 'params': 2})
     if kseq: symbols.append({'name': 'kseq', 'arity': 2, 'sort': sorts[0], 'cell': False, 'params': 0}); symbols.append({'name': 'dotk', 'arity': 0, 'sort': sorts[0], 'cell': False, 'params': 0})
@@ -260,7 +260,7 @@ def execute(sc, ctx):
                             else:
                                 srt = S.get_sort(sy['sort']) if mi else mod.get_sort(sy['sort'])
                                 mod.symbol(sn, srt, input_sorts=tuple(S.get_sort(sc['sorts'][0]) for _ in range(sy['arity'])),
-                                           is_functional=True, is_ctor=True, is_cell=sy['cell'])
+                                           is_functional=sy.get('functional', True), is_ctor=True, is_cell=sy['cell'])
                 # rules need all symbols: declare them after all modules exist, in ordinal order
                 for ri in rule_order:
                     r = rules[ri]
@@ -310,8 +310,10 @@ def execute(sc, ctx):
         ri = e['rule']
         r = rules[ri]
         l, rr = ksubst(r['lhs'], e['subst']), ksubst(r['rhs'], e['subst'])
-        matches = (l == cur)
-        st = 'match' if matches else 'mismatch'
+        nonfunctional = [v for v, t in e['subst'].items() if t[0] == 'app' and not symtab[t[1]].get('functional', True)]
+        matches = (l == cur) and not nonfunctional
+        either = (l == cur) and bool(nonfunctional)      # the property does not say whether a non-functional substitution value is refused
+        st = 'match' if matches else ('nonfunctional-substitution' if l == cur else 'mismatch')
         out.transitions.add('%s/%s/%s' % ('rewrite_event', st, sc['path']))
         before = state()
         try:
@@ -328,7 +330,7 @@ def execute(sc, ctx):
                             'C20|chain|repeated-identical-step-refused' if dup else 'C20|chain|matching-step-refused|%s|%s' % (type(raised).__name__, _where(raised, e, sc)),
                             'event %d (rule %d, subst %s): %s' % (k, ri, e['subst'], str(raised)[:300]))
             else:
-                out.probe('mismatching_step_refused')
+                out.probe('mismatching_step_refused' if l != cur else 'nonfunctional_substitution_refused')
             # whatever the reason, a refused step must leave the module where it was
             after = state()
             if after != before:
@@ -337,7 +339,7 @@ def execute(sc, ctx):
                             'C20|chain|refused-step-changed-state|' + what, 'event %d (rule %d, subst %s) was refused (%s) but changed the %s' % (k, ri, e['subst'], type(raised).__name__, what))
                 break
             continue
-        if not matches:
+        if not matches and not either:
             out.violate('a step that does not start at the reached configuration is refused', 'C20|chain|mismatching-step-accepted',
                         'event %d (rule %d, subst %s): lhs %s but the chain is at %s' % (k, ri, e['subst'], l, cur))
             break
@@ -433,7 +435,7 @@ def build_pe(sc):
                     else:
                         srt = S.get_sort(sy['sort']) if mi else mod.get_sort(sy['sort'])
                         mod.symbol(sn, srt, input_sorts=tuple(S.get_sort(sc['sorts'][0]) for _ in range(sy['arity'])),
-                                   is_functional=True, is_ctor=True, is_cell=sy['cell'])
+                                   is_functional=sy.get('functional', True), is_ctor=True, is_cell=sy['cell'])
         for ri in rule_order:
             r = rules[ri]
             with kmods[r['module']] as mod:
@@ -492,7 +494,7 @@ def kore_definition(K, sc, rule_order):
                 fr, to = K.SortVar('From'), K.SortVar('To')
                 sent.append(K.SymbolDecl(K.Symbol(sn, (fr, to)), (fr,), to, (K.App('functional'),)))
             else:
-                attrs = (K.App('functional'), K.App('constructor')) + ((K.App('cell'),) if sy['cell'] else ())
+                attrs = ((K.App('functional'),) if sy.get('functional', True) else ()) + (K.App('constructor'),) + ((K.App('cell'),) if sy['cell'] else ())
                 sent.append(K.SymbolDecl(K.Symbol(sn, ()), tuple(s0 for _ in range(sy['arity'])), K.SortApp(sy['sort']), attrs))
         if mi == len(sc['mods']) - 1:
             for ri in rule_order:
